@@ -17,7 +17,7 @@ CHECKS = {
  "C04": ("every implicit panic check and loop bound on every feasible path of the text entry points of util/semver (9 systems), util/pypi, the PyPI marker parser, util/resolve/schema (ParseResolve, New), the deptest/versiontest attribute parsers, resolve.MavenDepTypeToDependency and util/maven (profile activation, project keys, MergeParent+Interpolate+ProcessDependencies on a project with arbitrary-byte fields); inputs = all byte strings up to the stated lengths (grammar-alphabet bytes for the longer schema texts and row templates). Entry points built on net/mail, archive/*, encoding/xml and regexp are outside", "§7 C04, §11"),
  "C05": ("sequential clauses for all three resolvers (whole Resolve executed symbolically on skeleton universes of both generations): the client reports the same requirements and versions in the same order after Resolve; asking again, resolving another root in between on the same resolver and inserting the versions in the opposite order give the same graph, and the other root's graph equals a fresh resolver's. Concurrency clause decided sequentially as a lockset discipline on every path of one Resolve call (state that existed before the call is written only under an exclusive lock or through sync/atomic, and read under a lock where it is written), counterexamples replayed as 8 concurrent calls under the race detector; goroutine interleavings themselves are not explored (the engine has no scheduler)", "§7 C05, §11"),
  "C06": ("graph clauses (edge satisfies requirement, every non-dev non-peer requirement resolved or reported, reachability, fresh-install choice for every node) and, through the verif-tagged hook, the install-tree clauses (tree nodes = graph nodes, no directory holds one name twice, Node's walk-up lookup lands on the edge's target) asserted on the real npm Resolve over skeleton universes (3-4 packages, <=3 versions, two requirement slots per version, optional/dev/peer/bundle-scoped kinds, aliases incl. a directed family with an alias named like a real package) with symbolic digits in versions or requirements; universes with bundled (derived) packages are generated too (random and a directed family where the installed version is not the highest match), with the graph clauses and two clauses on where bundle content sits", "§7 C06, §11"),
- "C07": ("unit lemmas (findMatch preference order incl. one hard range among two soft requirements, exclusions, root-only scopes, artifact identity) plus the real Maven Resolve over skeleton universes with symbolic version numbers (one version per artifact, ranges respected, root-only scopes, war not traversed, management override, nearest-wins with exclusions inherited along paths against a breadth-first reference on soft-only skeletons incl. a directed diamond-with-exclusion family)", "§7 C07, §11"),
+ "C07": ("unit lemmas (findMatch preference order incl. one hard range among two soft requirements, exclusions, root-only scopes, artifact identity) plus the real Maven Resolve over skeleton universes with symbolic version numbers (one version per artifact, ranges respected, root-only scopes, war not traversed, management override, nearest-wins with exclusions inherited along paths against a breadth-first reference on soft-only skeletons incl. directed families: a diamond with an exclusion, an excluding dependency before a sibling that reaches the excluded artifact, the default type jar spelled out on one of two declarations)", "§7 C07, §11"),
  "C08": ("unit lemmas of the PyPI resolver state (criteria, versionMap, intersect, filterSlice, copy independence) plus the real PyPI Resolve over skeleton universes of two generations (symbolic version/specifier numbers and marker thresholds; two requirement slots per version, cycles through the root package, requested extras and extra-guarded requirements, prerelease specifiers): one version per package, root never replaced, a requirement whose marker is true for the extras requested in the final graph is an edge to a satisfying version, a false one contributes nothing, reachability", "§7 C08, §11"),
  "C09": ("membership laws of the real Union/Intersect/canon/matchVersion over constraint templates with symbolic digits (Default, NPM, Cargo, Go), incl. multi-span operands, spans written in the set syntax and operands whose spans overlap and stay unmerged", "§7 C09, §11"),
  "C10": ("Parse -> Canon -> Parse -> compare/Canon on all byte strings up to the stated length, plus same-canon-implies-equal on pairs; util/pypi CanonVersion over PEP 440 templates", "§7 C10, §11"),
@@ -25,7 +25,7 @@ CHECKS = {
  "C12": ("exact membership against the real constraint, exact order (ascending, unparsable npm versions last, the latest-tagged version moved last unless it is a prerelease while the list holds releases), tag selection and independence of the input order for MatchRequirement, and permutation-invariance/idempotence of SortVersions, over templated lists (NPM, Maven, PyPI); LocalClient.MatchingVersions equals MatchRequirement over the list the client holds, before and after a version is added again with other attributes", "§7 C12, §11"),
  "C13": ("the real Graph.Canon on graphs with parameter-given structure and symbolic labels (up to two errors per node), against a copy with renumbered nodes, rotated edges and errors recorded in the opposite order; idempotence and preservation of root, node multiset with errors, counts and edges", "§7 C13, §11"),
  "C14": ("the real LocalClient against a map-based reference over AddVersion histories of up to 3 (thorough 4) steps with a symbolic tag (none, latest, other) and requirement types, incl. an unparsable npm version and queries between the additions: lookups, listings in exact npm order, requirements, matching, mentioned packages, not-found", "§7 C14, §11"),
- "C15": ("partial: interpolation terminates, leaves and reports unresolved placeholders (symbolic dictionaries incl. cycles; arbitrary bytes); precedence lemmas (child over parent, explicit over un-prefixed built-ins, prefixed built-ins over explicit properties, dependencyManagement imports depth-first in declaration order with first declaration winning). Equality with Maven's model builder is not decided", "§7 C15, §11"),
+ "C15": ("partial: interpolation terminates, leaves and reports unresolved placeholders (symbolic dictionaries incl. cycles; arbitrary bytes); precedence lemmas (child over parent, explicit over un-prefixed built-ins, prefixed built-ins over explicit properties, dependencyManagement imports depth-first in declaration order with first declaration winning; management fills in exactly the empty fields; profile activation by OS criteria, by default and by a plain jdk value, and what MergeProfiles makes of the active profiles). Equality with Maven's model builder is not decided", "§7 C15, §11"),
  "C16": ("ParseDependency and CanonPackageName against the decomposition known by construction of PEP 508 strings; marker parser+evaluator against a transcription of packaging's rule (variable x operator x literal incl. v-prefixed versions, literal or extra on either side, and/or/parentheses)", "§7 C16, §11"),
  "C18": ("partial: alias split (npm:name@range) in flattenNPMDeps, several dependencies across the four sections plus bundleDependencies each keeping its own name, range, section and alias, the bundle mapping of npmRequirements over symbolic names and bundle trees (depth <= 3, bundles installed under an alias), end to end the npm resolver over the API-backed client (an in-process stand-in implementing the generated InsightsClient interface) against the in-memory client on skeleton universes, and the race clause as a lockset discipline on one Resolve through a shared API-backed client (counterexamples replayed as 8 concurrent resolutions under the race detector); gRPC transport and goroutine interleavings themselves are not explored", "§7 C18, §11"),
  "C19": ("order laws and equality characterisation of attr.Set.Compare, clone independence, versiontest text round trip (incl. values that spell attribute key names)", "§7 C19, §11"),
